@@ -6,6 +6,7 @@ import (
 	"context"
 	"fmt"
 	"math/big"
+	"sort"
 	"strconv"
 	"strings"
 	"time"
@@ -22,6 +23,12 @@ import (
 )
 
 const pageLimit = 100000
+
+// moduleOps are the ops that consume (and afterwards disarm) a pending `fault` / `failhook`.
+var moduleOps = map[string]bool{
+	"createF": true, "createB": true, "cancel": true, "place": true, "modify": true, "addmsg": true,
+	"params": true, "kadd": true, "kupd": true, "block": true,
+}
 
 // ---------------------------------------------------------------------------------------------
 // token reader
@@ -258,6 +265,7 @@ func (e *Env) runMsg(validate func() error, handler func(ctx context.Context) er
 }
 
 func (e *Env) badOp(err error) (string, []string) {
+	e.bad = true
 	e.rec.comment("bad op: %v", err)
 	return "res err", nil
 }
@@ -266,15 +274,30 @@ func (e *Env) badOp(err error) (string, []string) {
 func (e *Env) Exec(line string) string {
 	line = strings.TrimRight(line, "\r\n")
 
-	faultK := e.pendFault
-	e.pendFault = -1
-	e.rec.beginOp(faultK)
+	fields := strings.Fields(line)
+	// `fault` / `failhook` are active during the next module op only and are disarmed when it
+	// has completed; all other ops leave them armed.
+	// A malformed line ("bad op") is not a module op: nothing ran, so the injections stay armed.
+	savedFault, savedHooks := e.pendFault, e.pendHooks
+	isModuleOp := len(fields) > 0 && moduleOps[fields[0]]
+	if isModuleOp {
+		e.rec.beginOp(e.pendFault, e.pendHooks)
+		e.pendFault = -1
+		e.pendHooks = map[string]bool{}
+	} else {
+		e.rec.beginOp(-1, nil)
+	}
 	e.ctx = e.ctx.WithEventManager(sdk.NewEventManager())
 
-	res, rlines := e.dispatch(strings.Fields(line))
+	e.bad = false
+	res, rlines := e.dispatch(fields)
+	if isModuleOp && e.bad {
+		e.pendFault, e.pendHooks = savedFault, savedHooks
+	}
 
 	rec := e.rec // `reset` replaces the recorder
 	rec.faultK = -1
+	rec.failhooks = map[string]bool{}
 
 	var b strings.Builder
 	b.WriteString("> " + line + "\n")
@@ -282,18 +305,13 @@ func (e *Env) Exec(line string) string {
 	for _, c := range rec.comments {
 		b.WriteString(c + "\n")
 	}
-	if res != "res ok" {
-		for _, t := range rec.t {
-			b.WriteString("# discarded " + t + "\n")
+	// H and T lines form one log in call order; T lines are dropped unless the op succeeded.
+	for _, ev := range rec.events {
+		if strings.HasPrefix(ev, "T ") && res != "res ok" {
+			b.WriteString("# discarded " + ev + "\n")
+			continue
 		}
-	}
-	for _, h := range rec.h {
-		b.WriteString(h + "\n")
-	}
-	if res == "res ok" {
-		for _, t := range rec.t {
-			b.WriteString(t + "\n")
-		}
+		b.WriteString(ev + "\n")
 	}
 	for _, r := range rlines {
 		b.WriteString("R " + r + "\n")
@@ -335,12 +353,11 @@ func (e *Env) dispatch(t []string) (string, []string) {
 			}
 			return e.app.BankKeeper.SendCoinsFromModuleToAccount(ctx, minttypes.ModuleName, u, coins)
 		})
-		if err != nil {
-			if !panicked {
-				e.rec.comment("error: %v", err)
-			}
-			return "res err", nil
+		if err != nil && !panicked {
+			e.rec.comment("error: %v", err)
 		}
+		// PROTOCOL: `fund` is always `res ok`; a refused mint (invalid denom, non-positive amount)
+		// leaves the state unchanged and is only visible in the comment.
 		return "res ok", nil
 
 	case "gift":
@@ -576,7 +593,7 @@ func (e *Env) dispatch(t []string) (string, []string) {
 		if idx >= MaxListeners {
 			return e.badOp(fmt.Errorf("listener index %d out of range", idx))
 		}
-		e.rec.failhooks[fmt.Sprintf("%s/%d", name, idx)] = true
+		e.pendHooks[fmt.Sprintf("%s/%d", name, idx)] = true
 		return "res ok", nil
 
 	case "fault":
@@ -705,6 +722,16 @@ func (e *Env) queryOp(op string, p *toks) (res string, rlines []string) {
 				for _, ab := range resp.AllowedBidder {
 					rlines = append(rlines, e.allowedLine(ab.AuctionId, e.addrStr(ab.Bidder), ab))
 				}
+				// The collection is ordered by address bytes, the model by user index
+				// (= bech32 string order): report in (auction, user index) order.
+				sort.SliceStable(rlines, func(i, j int) bool {
+					ai, ui := allowedSortKey(rlines[i])
+					aj, uj := allowedSortKey(rlines[j])
+					if ai != aj {
+						return ai < aj
+					}
+					return ui < uj
+				})
 				return resp.Pagination, nil
 			})
 		}
@@ -821,4 +848,18 @@ func (e *Env) anyAuctionLine(any *codectypes.Any) string {
 		return "A x:unpack"
 	}
 	return e.auctionLine(a)
+}
+
+// allowedSortKey extracts (auction id, user index) from a rendered `W …` line.
+func allowedSortKey(line string) (uint64, uint64) {
+	f := strings.Fields(line)
+	if len(f) < 3 {
+		return 0, 0
+	}
+	a, _ := strconv.ParseUint(f[1], 10, 64)
+	u, err := strconv.ParseUint(strings.TrimPrefix(f[2], "u"), 10, 64)
+	if err != nil {
+		u = 1 << 62
+	}
+	return a, u
 }
